@@ -64,6 +64,11 @@ Fixpoint operands (d : db) (ks : list bytes) : option (list (list bytes)) :=
     end
   end.
 
+(* the accessors above are non-recursive: the generic footprint/deadline tactics of Mem/TtlProofs.v
+   see through them (effective once [Create HintDb kv_access] precedes this line, i.e. lives in a
+   file imported here; otherwise TtlProofs.v repeats the line after its own Create) *)
+#[export] Hint Unfold get_set put_set store_set : kv_access.
+
 (* ------------------------------------------------------------------ single-key commands *)
 Definition exec_sadd (d : db) (args : list bytes) : reply * db :=
   match args with
@@ -293,7 +298,11 @@ Definition exec_srandmember (d : db) (args : list bytes) (hint : reply) : reply 
 
 (* MEMBER (memdb/raft_command.go) sits in the same registry: MEMBER LIST reports the raft peers;
    a stand-alone server has no raft node, so every form is an error *)
-Definition exec_member (d : db) (args : list bytes) : reply * db := (err_other, d).
+Definition exec_member (d : db) (args : list bytes) : reply * db :=
+  match args with
+  | [_; _] => (err_other, d)          (* MEMBER LIST without a raft node, MEMBER <other> *)
+  | _ => (err_other, d)               (* wrong number of arguments *)
+  end.
 
 (* ------------------------------------------------------------------ dispatch *)
 Definition sets_dispatch (d : db) (now nowms : Z) (n : bytes) (args : list bytes) (hint : reply)
